@@ -1,0 +1,56 @@
+//! Verification hooks (only compiled with the `verif_hooks` cargo feature).
+//!
+//! The callbacks are thread-local so that concurrently running harness shards or tests
+//! cannot interfere with each other. With the feature disabled nothing in here exists.
+
+use std::cell::RefCell;
+use std::sync::Arc;
+use std::sync::atomic::AtomicBool;
+
+#[derive(Debug, Clone, Copy, PartialEq, Eq)]
+pub enum FollowAction {
+    /// Retry reading (the default behaviour without hooks)
+    Continue,
+    /// End the iteration
+    Stop
+}
+
+#[derive(Debug, Clone, Copy, PartialEq, Eq)]
+pub enum BatchLoop {
+    /// The per line loop in `FileExecutor::execute`
+    Main,
+    /// The per line loop in `JoinedTableData::execute`
+    Joined
+}
+
+thread_local! {
+    static FOLLOW_EOF: RefCell<Option<Box<dyn FnMut() -> FollowAction>>> = RefCell::new(None);
+    static BATCH_LINE: RefCell<Option<Box<dyn FnMut(BatchLoop, usize, &Arc<AtomicBool>)>>> = RefCell::new(None);
+}
+
+pub fn set_follow_eof(callback: Option<Box<dyn FnMut() -> FollowAction>>) {
+    FOLLOW_EOF.with(|hook| *hook.borrow_mut() = callback);
+}
+
+pub fn set_batch_line(callback: Option<Box<dyn FnMut(BatchLoop, usize, &Arc<AtomicBool>)>>) {
+    BATCH_LINE.with(|hook| *hook.borrow_mut() = callback);
+}
+
+/// Called when the follow reader observed EOF without a complete line
+pub fn follow_eof() -> FollowAction {
+    FOLLOW_EOF.with(|hook| {
+        match hook.borrow_mut().as_mut() {
+            Some(callback) => callback(),
+            None => FollowAction::Continue
+        }
+    })
+}
+
+/// Called at the top of the per line loops, before the `running` flag is checked
+pub fn batch_line(kind: BatchLoop, index: usize, running: &Arc<AtomicBool>) {
+    BATCH_LINE.with(|hook| {
+        if let Some(callback) = hook.borrow_mut().as_mut() {
+            callback(kind, index, running);
+        }
+    })
+}
